@@ -622,6 +622,9 @@ func (u *Unit) boxIface(t Term, typ types.Type) Term {
 			fmt.Sprintf("(declare-fun %s (%s) Iface)", f, t.Sort),
 			fmt.Sprintf("(declare-fun un%s (Iface) %s)", f, t.Sort),
 			fmt.Sprintf("(assert (forall ((x %s)) (! (and (= (itag (%s x)) %d) (= (un%s (%s x)) x)) :pattern ((%s x)))))", t.Sort, f, tag, f, f, f))
+		if _, isPtr := typ.Underlying().(*types.Pointer); isPtr && t.Sort == "Int" {
+			u.decls = append(u.decls, fmt.Sprintf("(assert (forall ((x Int)) (! (= (irefof (%s x)) x) :pattern ((%s x)))))", f, f))
+		}
 	}
 	return app("Iface", f, t)
 }
